@@ -81,7 +81,7 @@ def atoms(seed):
 
 
 CORE = ("proto8", "wmff", "ua-short", "ua-over1", "inj36short", "wmh36ptr", "wmh36int", "gap75", "noneffff", "dup-proto", "bof2", "bof-2021", "ptr256", "short-len4", "ua-256full")
-ENDINGS = ("eof", "term", "term+garbage", "pad4096", "lone-byte", "trunc-record")
+ENDINGS = ("eof", "term", "term+garbage", "pad4096", "lone-byte", "trunc-record", "trunc-hdr4", "trunc-hdr5", "trunc-val-1", "trunc-val-2")
 
 
 def plan(tier, seed):
@@ -124,6 +124,12 @@ def encode_seq(seq, ending, seed):
         out += b"\x07"
     elif ending == "trunc-record":
         out += tlv.rec(2, 3, b"abc", length=10)
+    elif ending in ("trunc-hdr4", "trunc-hdr5"):
+        # the data ends inside the 6-byte header of one more record (after the type field)
+        out += tlv.rec(2, 1, b"\x01\xbb")[: int(ending[-1])]
+    elif ending in ("trunc-val-1", "trunc-val-2"):
+        # the data ends 1 / 2 bytes before the end of one more record's value
+        out += tlv.rec(3, 2, b"\x00\x00\xea\x60")[: -int(ending[-1])]
     return out, exp
 
 
@@ -284,7 +290,7 @@ def chunk_seqs(chunk, acc):
         seqs = [(A[chunk["first"]],) + r for r in sequences(rest, b["depth_core"] - 1, b["depth_full"])]
     for seq in seqs:
         acc.states += 1
-        for ending in ENDINGS:
+        for ending in ENDINGS if len(seq) <= 2 else ENDINGS[:6]:
             enc = encode_seq(seq, ending, acc.seed)
             if enc is None:
                 continue
